@@ -222,7 +222,19 @@ def _delta(ev):
     return resolve(keys)[0]['delta']
 
 
+def _expand(v):
+    # ('pat', expr): a finite value pattern in the notation of specs/patterns
+    if isinstance(v, tuple) and v and v[0] == 'pat':
+        from vf.specs import patterns
+        vals = patterns.den(v[1], 1000)
+        if len(vals) >= 1000:
+            raise Unspecified('infinite value pattern')
+        return vals
+    return v
+
+
 def _bind(mapping):
+    mapping = {k: _expand(v) for k, v in mapping.items()}
     lists = [v for v in mapping.values() if isinstance(v, list)]
     if not lists:
         raise Unspecified('infinite Pbind')
